@@ -28,7 +28,7 @@ def run(ctx):
            desc='every cookie text over {? & = " a é}: never raises; not validly signed / malformed -> empty; valid -> exactly its items'),
         Ob('expiry', 'ob_expiry', 'now: int, exp: int, has_exp: bool', timeout=tmo, twin_fn='tw_expiry',
            desc='validly signed data is presented iff now <= _expires; _expires itself is removed'),
-        Ob('expiry_seq', 'ob_expiry_seq', '', packed=[('exp', 6), ('t1', 4), ('t2', 4), ('t3', 4)], timeout=tmo, confirm='confirm_expiry_seq',
+        Ob('expiry_seq', 'ob_expiry_seq', '', packed=[('exp', 6), ('t1', 4), ('t2', 4), ('t3', 4)], cells=[('exp%d' % e, [{'exp': e}]) for e in range(6)], timeout=tmo, confirm='confirm_expiry_seq',
            desc='the same validly signed cookie string presented three times while the clock advances (real HMAC/base64/json): every presentation is decided by the clock at that moment'),
         Ob('history', 'ob_history', '', packed=[('expiry_kind', 3), ('o0', 10), ('o1', 10), ('o2', 10)],
            cells=[('exp%d_o%d' % (e, a), [{'expiry_kind': e, 'o0': a}]) for e in range(3) for a in range(10)], timeout=tmo, confirm='confirm_history',
